@@ -31,7 +31,12 @@ def main():
         j.module = j.module or mod.__name__
         j.opts.setdefault("seed", seed)
     results = common.run_jobs(jobs)
-    extra = mod.extra_coverage(a.tier, results) if hasattr(mod, "extra_coverage") else None
+    real = [r for r in results if not r.get("expect_cex")]
+    if hasattr(mod, "post_results"):
+        extra_rows = list(mod.post_results(real))
+        results = results + extra_rows
+        real = real + extra_rows
+    extra = mod.extra_coverage(a.tier, real) if hasattr(mod, "extra_coverage") else None
     rc = common.finish(pid, a.tier, seed, mod, results, t0, extra_cov=extra)
     sys.exit(rc)
 
